@@ -4,18 +4,32 @@ From AV Require Import Base Lock LockProofs LockThms LockEntry.
 
 Definition ereach (fa : bool) (s : est) : Prop := exists ops, s = final (estep false) (einit fa) ops.
 
+(* one step of the extended machine: the lock component does not move, or moves by ONE Lock.step *)
+Lemma estep_lock s o : (forall t, committed s t = false) ->
+  (forall t, committed (fst (estep false s o)) t = false) /\
+  (lock (fst (estep false s o)) = lock s \/ exists lo, lock (fst (estep false s o)) = fst (Lock.step (lock s) lo)).
+Proof.
+  intros C.
+  assert (U : forall t u, upd (committed s) t false u = false).
+  { intros t u. unfold upd. destruct (Nat.eqb u t); [reflexivity | apply C]. }
+  destruct o as [o|t|t|t]; cbn [estep].
+  - destruct (spin s (op_tid o)).
+    + destruct o as [t|t|t|t|t]; cbn; try (split; [exact C | left; reflexivity]).
+      destruct (ckmust s t); cbn; (split; [|left; reflexivity]); [intros u; apply U | exact C].
+    + destruct (Lock.step (lock s) o) as [l' r] eqn:E. cbn. split; [exact C|]. right. exists o. now rewrite E.
+  - destruct (spin s t || negb (is_idle (phase_of (lock s) t))); cbn; (split; [exact C | left; reflexivity]).
+  - destruct (spin s t); cbn; (split; [|left; reflexivity]); [intros u; apply U | exact C].
+  - destruct (negb (spin s t)); [split; [exact C | left; reflexivity]|].
+    destruct (ckmust s t); [cbn; split; [intros u; apply U | left; reflexivity]|].
+    rewrite C. destruct (Lock.step (lock s) (AcqBegin t)) as [l' r] eqn:E. cbn.
+    split; [intros u; apply U|]. right. exists (AcqBegin t). now rewrite E.
+Qed.
+
 Lemma estep_inv s o : Inv (lock s) /\ (forall t, committed s t = false) ->
   Inv (lock (fst (estep false s o))) /\ (forall t, committed (fst (estep false s o)) t = false).
 Proof.
-  intros [I C]. destruct o as [o|t|t|t]; cbn [estep].
-  - destruct (spin s (op_tid o)); [split; assumption|].
-    pose proof (step_inv (lock s) o I) as H. destruct (Lock.step (lock s) o) as [l' r]. split; assumption.
-  - destruct (spin s t || negb (is_idle (phase_of (lock s) t))); split; assumption.
-  - destruct (spin s t); [|split; assumption]. split; [exact I|].
-    intros t'. cbn. unfold upd. destruct (Nat.eqb t' t); [reflexivity | apply C].
-  - destruct (negb (spin s t)); [split; assumption|]. rewrite C.
-    pose proof (step_inv (lock s) (AcqBegin t) I) as H. destruct (Lock.step (lock s) (AcqBegin t)) as [l' r].
-    split; [exact H|]. intros t'. cbn. unfold upd. destruct (Nat.eqb t' t); [reflexivity | apply C].
+  intros [I C]. destruct (estep_lock s o C) as [C' [E | [lo E]]]; (split; [|exact C']); rewrite E;
+    [exact I | apply step_inv; exact I].
 Qed.
 
 Lemma ereach_inv fa s : ereach fa s -> Inv (lock s) /\ (forall t, committed s t = false).
@@ -53,15 +67,7 @@ Proof.
   induction ops as [|o r [IH C]] using rev_ind.
   - split; [exists []; reflexivity | reflexivity].
   - rewrite final_app. cbn [final fold_left]. set (s := final (estep false) (einit fa) r) in *.
-    destruct o as [o|t|t|t]; cbn [estep].
-    + destruct (spin s (op_tid o)); [split; assumption|].
-      pose proof (reach_step fa (lock s) o IH) as H. destruct (Lock.step (lock s) o) as [l' r']. split; assumption.
-    + destruct (spin s t || negb (is_idle (phase_of (lock s) t))); split; assumption.
-    + destruct (spin s t); [|split; assumption]. split; [exact IH|].
-      intros t'. cbn. unfold upd. destruct (Nat.eqb t' t); [reflexivity | apply C].
-    + destruct (negb (spin s t)); [split; assumption|]. rewrite C.
-      pose proof (reach_step fa (lock s) (AcqBegin t) IH) as H. destruct (Lock.step (lock s) (AcqBegin t)) as [l' r'].
-      split; [exact H|]. intros t'. cbn. unfold upd. destruct (Nat.eqb t' t); [reflexivity | apply C].
+    destruct (estep_lock s o C) as [C' [E | [lo E]]]; (split; [|exact C']); rewrite E; [exact IH | now apply reach_step].
 Qed.
 
 (* one inherited clause stated directly on the extended machine: a free lock never has waiters, and the queue is in
@@ -78,20 +84,30 @@ Qed.
 Theorem entry_cancelled_refused s t : spin s t = false -> phase_of (lock s) t = Idle ->
   let s1 := fst (estep false s (EnterCancelled t)) in
   snd (estep false s (EnterCancelled t)) = RBlocked /\ lock s1 = lock s /\ spin s1 t = true /\
-  estep false s1 (SpinCancel t) = (emk (lock s) (upd (spin s1) t false) (upd (committed s1) t false), RCancelled).
+  estep false s1 (SpinCancel t) = (unspin s1 (lock s) t, RCancelled).
 Proof.
   intros Hs Hp. cbn [estep]. rewrite Hs, Hp. cbn. rewrite upd_same. repeat split.
+Qed.
+
+(* whatever is done TO a task that sits in its entry check (native cancel, its own steps), the lock does not move; such a
+   step ends the call only with the cancellation, and only after a native cancel *)
+Theorem spinner_steps_noeffect s t o : spin s t = true -> op_tid o = t ->
+  lock (fst (estep false s (L o))) = lock s /\
+  (snd (estep false s (L o)) = RCancelled -> ckmust s t = true /\ o = Resume t).
+Proof.
+  intros Hs Ht. cbn [estep]. rewrite Ht, Hs.
+  destruct o as [u|u|u|u|u]; cbn in Ht; subst; cbn; try (split; [reflexivity | discriminate]).
+  destruct (ckmust s t); cbn; (split; [reflexivity|]); [auto | discriminate].
 Qed.
 
 (* HEAD has no step between test and take: when the check returns after its yield, the rest of acquire() - the
    `free?` test, the owner assignment or the enqueuing - is ONE step: exactly an ordinary AcqBegin on the lock as it
    is then *)
-Theorem no_step_between_test_and_take fa s t : ereach fa s -> spin s t = true ->
+Theorem no_step_between_test_and_take fa s t : ereach fa s -> spin s t = true -> ckmust s t = false ->
   estep false s (SpinReturn t) =
-  (emk (fst (Lock.step (lock s) (AcqBegin t))) (upd (spin s) t false) (upd (committed s) t false),
-   snd (Lock.step (lock s) (AcqBegin t))).
+  (unspin s (fst (Lock.step (lock s) (AcqBegin t))) t, snd (Lock.step (lock s) (AcqBegin t))).
 Proof.
-  intros R Hs. destruct (ereach_inv fa s R) as [_ C]. cbn [estep]. rewrite Hs, C. cbn [negb].
+  intros R Hs Hm. destruct (ereach_inv fa s R) as [_ C]. cbn [estep]. rewrite Hs, Hm, C. cbn [negb].
   destruct (Lock.step (lock s) (AcqBegin t)); reflexivity.
 Qed.
 
@@ -123,3 +139,12 @@ Example ex_entry_projection_f53 :
   let s := final (estep false) (einit true) f53_ops in
   ereach true s /\ owner (lock s) = Some 2 /\ waiters (lock s) = [(1, 0)] /\ enq (lock s) = [(1, 0)].
 Proof. split; [eexists; reflexivity|]. vm_compute. repeat split. Qed.
+
+(* non-vacuity of the native-cancel path: task 1 sits in its entry check while task 2 holds the lock; a native cancel
+   reaches it; its next step raises and nothing of the lock has moved; SpinReturn ends the same way *)
+Example ex_entry_native_cancel :
+  let s := final (estep false) (einit false) [L (AcqNowait 2); EnterCancelled 1; L (Cancel 1)] in
+  spin s 1 = true /\ ckmust s 1 = true /\ owner (lock s) = Some 2 /\ ereach false s /\
+  snd (estep false s (L (Resume 1))) = RCancelled /\ lock (fst (estep false s (L (Resume 1)))) = lock s /\
+  snd (estep false s (SpinReturn 1)) = RCancelled.
+Proof. split; [reflexivity|]. split; [reflexivity|]. split; [reflexivity|]. split; [eexists; reflexivity|]. repeat split. Qed.
